@@ -1084,3 +1084,96 @@ theorem reachable_minv (e i f : Bool) (ops : List Op) :
   simpa using this
 
 end Qx.C07.Mam
+
+namespace Qx.C07
+
+theorem run_append (a b : List Op) : ∀ (s : St),
+    run s (a ++ b) = ((run (run s a).1 b).1, (run s a).2 ++ (run (run s a).1 b).2) := by
+  induction a with
+  | nil => intro s; simp [run]
+  | cons op rest ih => intro s; simp [run, ih, List.append_assoc]
+
+/-- a table entry of a later state is an entry of the earlier state or was registered by one of
+the operations in between, which fixes its request number and its addressee -/
+theorem run_new (ops : List Op) : ∀ (s : St) {e : Entry}, e ∈ (run s ops).1.tbl →
+    e ∈ s.tbl ∨ (e.to ≠ "" ∧ e.id ≠ .named "" ∧ ∃ pre op post, ops = pre ++ op :: post ∧
+      e.req = (run s pre).1.nreq ∧
+      ((∃ id to, op = .send id to ∧ e.to = (if to = "" then (run s pre).1.own else to)) ∨
+       (∃ to, op = .sendRaw e.id to ∧ e.to = to))) := by
+  induction ops with
+  | nil => intro s e he; exact Or.inl he
+  | cons op rest ih =>
+    intro s e he
+    simp only [run] at he
+    rcases ih (step s op).1 he with h | ⟨h1, h2, pre, op', post, h3, h4, h5⟩
+    · rcases step_new h with h' | ⟨g1, g2, g3, g4⟩
+      · exact Or.inl h'
+      · exact Or.inr ⟨g2, g3, [], op, rest, rfl, by simpa [run] using g1, by simpa [run] using g4⟩
+    · right
+      exact ⟨h1, h2, op :: pre, op', post, by simp [h3], by simpa [run] using h4, by simpa [run] using h5⟩
+
+theorem finish_own (s : St) (id : Id) (how : How) : (finish s id how).1.own = s.own := by
+  unfold finish; split <;> rfl
+
+theorem failList_own (l : List Id) : ∀ (s : St), (failList s l).1.own = s.own := by
+  induction l with
+  | nil => intro s; rfl
+  | cons id rest ih => intro s; simp [failList, ih, finish_own]
+
+theorem sendRaw_own (s : St) (id : Id) (to : String) : (sendRaw s id to).1.own = s.own := by
+  unfold sendRaw
+  simp only
+  split
+  · rfl
+  · split
+    · rfl
+    · split
+      · rfl
+      · split
+        · rfl
+        · simp [finish_own]
+
+theorem recv_own (s : St) (st : Stanza) : (recv s st).1.own = s.own := by
+  unfold recv
+  split
+  · rfl
+  · split
+    · rfl
+    · split
+      · rfl
+      · split <;> rfl
+
+theorem step_own (s : St) (op : Op) : (step s op).1.own = s.own := by
+  unfold step
+  split
+  · rfl
+  · cases op with
+    | send id to => simp [send, sendRaw_own]
+    | sendRaw id to => simp [sendRaw_own]
+    | sendFails id => simp [finish_own]
+    | failAll => simp [failList_own]
+    | ackAll => simp only; split <;> rfl
+    | enableSm => rfl
+    | recv st =>
+      simp only
+      split
+      · unfold streamError; split <;> rfl
+      · exact recv_own s st
+    | sessionOpened r => simp only; split <;> rfl
+    | sessionClosed c => simp only; split <;> rfl
+    | destroy => simp [cancelAll, failList_own]
+
+theorem run_own (ops : List Op) : ∀ (s : St), (run s ops).1.own = s.own := by
+  induction ops with
+  | nil => intro s; rfl
+  | cons op rest ih => intro s; simp [run, ih, step_own]
+
+/-- for a permutation of `0 … n-1`, every number below `n` occurs exactly once -/
+theorem count_of_perm_range {l : List Nat} {n q : Nat} (h : l.Perm (List.range n)) (hq : q < n) :
+    l.count q = 1 := by
+  rw [h.count_eq]
+  have h1 : (List.range n).count q ≤ 1 := List.nodup_iff_count.mp List.nodup_range q
+  have h2 : 0 < (List.range n).count q := List.count_pos_iff.mpr (List.mem_range.mpr hq)
+  omega
+
+end Qx.C07
